@@ -38,6 +38,8 @@ var shapePaths = map[string]string{
 	"altOfAlt": "(ex.p | ex.q) | (ex.r | ex.p^)",
 }
 
+var shapeTexts = []string{"", " bell\a", " esc\x1b[31m red", " tag\U000E0067", " q\"uote", " back\\slash", " 100%", " {{ex.p}} and %", " tab\tnew\nline", " vt\v del\x7f"}
+
 func simpleExpr(prop string) map[string]any {
 	return map[string]any{"propertyConstraints": map[string]any{prop: map[string]any{"minCount": 1}}}
 }
@@ -115,7 +117,8 @@ func renderShape(c shapeCase) string {
 		name := fmt.Sprintf("validation-%d", v)
 		lvl := []string{"violation", "warning", "info"}[(v-1)%3]
 		levels[lvl] = append(levels[lvl], name)
-		val := map[string]any{"targetClass": "ex.T", "message": "shape " + name}
+		// texts of a well-formed profile may hold any character: rotate a few that are special to some stage
+		val := map[string]any{"targetClass": "ex.T", "message": "shape " + name + shapeTexts[(v+c.Siblings+c.Depth+len(c.Kind))%len(shapeTexts)]}
 		for k, x := range body {
 			val[k] = x
 		}
@@ -126,6 +129,14 @@ func renderShape(c shapeCase) string {
 		doc[l] = ns
 	}
 	b, _ := yaml.Marshal(doc)
+	var back map[string]any
+	if err := yaml.Unmarshal(b, &back); err != nil {
+		// yaml.v3 could not write one of the texts: fall back to plain messages (the shape is what matters here)
+		for _, v := range vals {
+			v.(map[string]any)["message"] = "shape"
+		}
+		b, _ = yaml.Marshal(doc)
+	}
 	return "#%Validation Profile 1.0\n" + string(b)
 }
 
